@@ -111,10 +111,13 @@ def generate(rng, tier, idx):
         ignores.append(rng.choice(['l', 'a/l', 'l00']))      # look-alike prefixes
     ops = []
     for _ in range(rng.choice([1, 2, 3])):
-        ops.append({'op': rng.choice(['verify', 'verify', 'update', 'create', 'unregistered', 'cli-verify', 'cli-update']),
+        ops.append({'op': rng.choice(['verify', 'verify', 'verify-kg', 'update', 'create', 'unregistered', 'cli-verify', 'cli-update']),
                     'xdev': rng.random() < 0.6})
+    # the Manifest still records a FILE at the path where the other filesystem is now linked in (a recorded file
+    # later replaced by a link to a directory elsewhere); used for one-file-system verification only
+    file_entry_for_ext = ext and rng.random() < 0.4
     return {'prop': ID, 'order_key': '%016x' % rng.getrandbits(64), 'tree': tree, 'mounts': mounts,
-            'ignores': ignores, 'ops': ops, 'unreg': unreg}
+            'ignores': ignores, 'ops': ops, 'unreg': unreg, 'file_entry_for_ext': bool(file_entry_for_ext)}
 
 
 def dev_of(mounts, base, realpath, default):
@@ -226,15 +229,24 @@ def execute(sc):
                 if os.path.lexists(top):
                     _o['os.unlink'](top)
             else:
+                mt_ = manifest_text
+                if sc.get('file_entry_for_ext') and kind in ('verify', 'verify-kg', 'cli-verify') and not xdev:
+                    extl = sorted(v_ for v_ in g['dirs'] if os.path.islink(os.path.join(root, v_))
+                                  and os.readlink(os.path.join(root, v_)).endswith('mnt1') and not v_.split('/')[-1].startswith('.'))
+                    if extl:
+                        mt_ = manifest_text + G.dump([{'tag': 'DATA', 'path': extl[0], 'size': 0, 'sums': {}}])
+                        counters['file_entry_at_foreign_directory'] = counters.get('file_entry_at_foreign_directory', 0) + 1
                 with _o['open'](top, 'w', encoding='utf8') as f:
-                    f.write(manifest_text)
-            walks = {'verify': 1, 'cli-verify': 1, 'unregistered': 1}.get(kind, 3)
+                    f.write(mt_)
+            walks = {'verify': 1, 'verify-kg': 1, 'cli-verify': 1, 'unregistered': 1}.get(kind, 3)
             cap = 150 + 14 * walks * (g['visits'] + 2)
             kw = {} if xdev else {'allow_xdev': False}
             with seam:
                 seam.begin_op(i, step_cap=cap)
                 if kind == 'verify':
                     r = call(lambda: ManifestRecursiveLoader(top, **kw).assert_directory_verifies(''))
+                elif kind == 'verify-kg':
+                    r = call(lambda: ManifestRecursiveLoader(top, **kw).assert_directory_verifies('', fail_handler=lambda e: False))
                 elif kind == 'update':
                     def upd():
                         m = ManifestRecursiveLoader(top, hashes=['SHA256'], **kw)
